@@ -115,6 +115,16 @@ def make_gt_frame(fr, frame="base_link", name=None, tf_mode="pose"):
     ego = fr.get("ego")
     objs = [make_object(g, frame, ego, fr["t"]) for g in fr["gts"]]
     nm = name if name is not None else str(fr["index"])
+    if tf_mode == "derived" and fr.get("_prev_gt_frame") is not None:
+        # the way interpolate_ground_truth_frames derives a frame: a deepcopy of an earlier (already evaluated) frame whose objects and
+        # ego->map entry are then replaced in place
+        import copy
+        from perception_eval.common.schema import FrameID
+
+        out = copy.deepcopy(fr["_prev_gt_frame"])
+        out.unix_time, out.frame_name, out.objects = fr["t"], nm, objs
+        out.transforms[(FrameID.BASE_LINK, FrameID.MAP)] = ego_transform(ego)
+        return out
     if frame != "map" and tf_mode == "empty":
         return FrameGroundTruth(fr["t"], nm, objs, transforms=[])
     if frame != "map" and tf_mode == "none":
